@@ -30,27 +30,33 @@ struct c07b_ghost {
 	int open_calls, open_res;
 	int refs_aar, refs_car, refs_cal, refs_chain, append_calls;
 	int tlv_removed, tlv_appended;
-	int builder_free_calls; int list_live;
+	int builder_free_calls; int list_live; int sig_free_calls;
 	int clone_calls, clone_res; const void *clone_from;
 } g_b;
 static struct KSI_AggregationHashChain_st g_b_aggr; static struct KSI_HashChainLink_st g_b_link;
 static struct KSI_Integer_st g_b_oldint;
 static struct KSI_TLV_st g_b_el;             /* storage of the list element handed out last */
-static char g_b_chainlist, g_b_tlvlist, g_b_linklist;
+/* KSI lists are structs of function pointers (the typed list functions are macros): concrete list objects whose
+ * call-backs are the stubs below; c07b_init_lists() wires them (called by the harness) */
+static struct KSI_AggregationHashChain_list_st g_b_chainlist, g_b_newchainlist;
+static struct KSI_TLV_list_st g_b_tlvlist;
+static struct KSI_HashChainLink_list_st g_b_linklist;
 
 static int c07b_status(void) { return nondet_int(); }
 
-int KSI_AggregationHashChainList_elementAt(KSI_LIST(KSI_AggregationHashChain) *l, size_t pos, KSI_AggregationHashChain **o) {
+static int c07b_chain_elementAt(KSI_LIST(KSI_AggregationHashChain) *l, size_t pos, KSI_AggregationHashChain **o) {
 	int r = c07b_status();
 	if (r == KSI_OK) *o = &g_b_aggr;
 	return r;
 }
+static size_t c07b_chain_length(KSI_LIST(KSI_AggregationHashChain) *l) { return g_b_al_len; }
+static int c07b_chain_append(KSI_LIST(KSI_AggregationHashChain) *l, KSI_AggregationHashChain *o);
 int KSI_AggregationHashChain_getChain(const KSI_AggregationHashChain *aggr, KSI_LIST(KSI_HashChainLink) **chain) {
 	int r = c07b_status();
-	if (r == KSI_OK) *chain = (void *)&g_b_linklist;
+	if (r == KSI_OK) *chain = &g_b_linklist;
 	return r;
 }
-int KSI_HashChainLinkList_elementAt(KSI_LIST(KSI_HashChainLink) *l, size_t pos, KSI_HashChainLink **o) {
+static int c07b_link_elementAt(KSI_LIST(KSI_HashChainLink) *l, size_t pos, KSI_HashChainLink **o) {
 	int r = c07b_status();
 	__CPROVER_assert(pos == 0, "the FIRST link of the chain is asked for");
 	if (r == KSI_OK) *o = &g_b_link;
@@ -82,9 +88,15 @@ int KSI_TLV_new(KSI_CTX *ctx, unsigned tag, int isLenient, int isForward, KSI_TL
 void KSI_TLV_free(KSI_TLV *t) { if (t != NULL) { g_b.tlv_live--; free(t); } }
 int KSI_TlvTemplate_construct(KSI_CTX *ctx, KSI_TLV *tlv, const void *payload, const KSI_TlvTemplate *tmpl) { g_b.construct_calls++; g_b.construct_payload = payload; return c07b_status(); }
 int KSI_TlvTemplate_extract(KSI_CTX *ctx, void *payload, KSI_TLV *tlv, const KSI_TlvTemplate *tmpl) { return c07b_status(); }
-int KSI_TLV_getNestedList(KSI_TLV *tlv, KSI_LIST(KSI_TLV) **list) { int r = c07b_status(); if (r == KSI_OK) *list = (void *)&g_b_tlvlist; return r; }
-size_t KSI_TLVList_length(KSI_LIST(KSI_TLV) *l) { return g_b_tl_len; }
-int KSI_TLVList_elementAt(KSI_LIST(KSI_TLV) *l, size_t pos, KSI_TLV **o) {
+int KSI_TLV_getNestedList(KSI_TLV *tlv, KSI_LIST(KSI_TLV) **list) { int r = c07b_status(); if (r == KSI_OK) *list = &g_b_tlvlist; return r; }
+static size_t c07b_tlv_length(KSI_LIST(KSI_TLV) *l) { return g_b_tl_len; }
+static int c07b_tlv_remove(KSI_LIST(KSI_TLV) *l, size_t pos, KSI_TLV **o) {
+	int r = c07b_status();
+	__CPROVER_assert(pos < g_b_tl_len, "protocol: no removal beyond the TLV list");
+	if (r == KSI_OK) { g_b_tl_len--; if (o != NULL) *o = &g_b_el; }
+	return r;
+}
+static int c07b_tlv_elementAt(KSI_LIST(KSI_TLV) *l, size_t pos, KSI_TLV **o) {
 	int r = c07b_status();
 	__CPROVER_assert(pos < g_b_tl_len, "protocol: no fetch beyond the TLV list");
 	if (r == KSI_OK) { g_b_el.tag = nondet_uint(); *o = &g_b_el; }
@@ -92,16 +104,57 @@ int KSI_TLVList_elementAt(KSI_LIST(KSI_TLV) *l, size_t pos, KSI_TLV **o) {
 }
 unsigned KSI_TLV_getTag(const KSI_TLV *tlv) { return tlv != NULL ? tlv->tag : 0; }
 int KSI_AggregationHashChain_new(KSI_CTX *ctx, KSI_AggregationHashChain **out) {
-	KSI_AggregationHashChain *t;
+	/* (no malloc: the call sits inside a loop under a loop contract) one scratch object, counted */
+	static struct KSI_AggregationHashChain_st scratch;
 	if (nondet_bool()) return KSI_OUT_OF_MEMORY;
-	t = malloc(sizeof(*t)); if (t == NULL) return KSI_OUT_OF_MEMORY;
-	g_b_chain_live++; *out = t; return KSI_OK;
+	__CPROVER_assert(g_b_chain_live == 0, "at most one scratch chain object is alive");
+	g_b_chain_live++; *out = &scratch; return KSI_OK;
 }
-void KSI_AggregationHashChain_free(KSI_AggregationHashChain *t) { if (t != NULL && t != &g_b_aggr) { g_b_chain_live--; free(t); } }
+void KSI_AggregationHashChain_free(KSI_AggregationHashChain *t) { if (t != NULL && t != &g_b_aggr) { g_b_chain_live--; } }
 int KSI_AggregationHashChain_compare(const KSI_AggregationHashChain **l, const KSI_AggregationHashChain **r) { return nondet_int(); }
 int KSI_TLV_replaceNestedTlv(KSI_TLV *parent, KSI_TLV *oldTlv, KSI_TLV *newTlv) {
 	g_b.replace_calls++; g_b.replace_old = oldTlv; g_b.replace_new = newTlv; g_b.replace_res = c07b_status();
 	if (g_b.replace_res == KSI_OK && newTlv != NULL) { g_b.tlv_live--; free(newTlv); }     /* ownership moves into the parent */
 	return g_b.replace_res;
+}
+/* ---- KSI_SignatureBuilder_openFromAggregationResp / openFromSignature ---- */
+struct c07b_loop_ghost { size_t append_calls, refs_chain, tlv_appended; } g_bl;   /* touched inside the two copy loops */
+KSI_CTX *KSI_AggregationResp_getCtx(const KSI_AggregationResp *r) { return r != NULL ? r->ctx : NULL; }
+int KSI_AggregationResp_getBaseTlv(const KSI_AggregationResp *r, KSI_TLV **v) { if (r == NULL || v == NULL) return KSI_INVALID_ARGUMENT; *v = r->baseTlv; return KSI_OK; }
+int KSI_AggregationResp_getStatus(const KSI_AggregationResp *r, KSI_Integer **v) { if (r == NULL || v == NULL) return KSI_INVALID_ARGUMENT; *v = r->status; return KSI_OK; }
+int KSI_AggregationResp_getErrorMsg(const KSI_AggregationResp *r, KSI_Utf8String **v) { if (r == NULL || v == NULL) return KSI_INVALID_ARGUMENT; *v = NULL; return KSI_OK; }
+int KSI_AggregationResp_getAggregationAuthRec(const KSI_AggregationResp *r, KSI_AggregationAuthRec **v) { int s = c07b_status(); if (s == KSI_OK) *v = r->aar; return s; }
+int KSI_AggregationResp_getCalendarAuthRec(const KSI_AggregationResp *r, KSI_CalendarAuthRec **v) { int s = c07b_status(); if (s == KSI_OK) *v = r->car; return s; }
+int KSI_AggregationResp_getCalendarChain(const KSI_AggregationResp *r, KSI_CalendarHashChain **v) { int s = c07b_status(); if (s == KSI_OK) *v = r->cal; return s; }
+int KSI_AggregationResp_getAggregationChainList(const KSI_AggregationResp *r, KSI_LIST(KSI_AggregationHashChain) **v) { int s = c07b_status(); if (s == KSI_OK) *v = r->chains; return s; }
+KSI_AggregationAuthRec *KSI_AggregationAuthRec_ref(KSI_AggregationAuthRec *o) { if (o != NULL) g_b.refs_aar++; return o; }
+KSI_CalendarAuthRec *KSI_CalendarAuthRec_ref(KSI_CalendarAuthRec *o) { if (o != NULL) g_b.refs_car++; return o; }
+KSI_CalendarHashChain *KSI_CalendarHashChain_ref(KSI_CalendarHashChain *o) { if (o != NULL) g_b.refs_cal++; return o; }
+KSI_AggregationHashChain *KSI_AggregationHashChain_ref(KSI_AggregationHashChain *o) { if (o != NULL) g_bl.refs_chain++; return o; }
+int KSI_AggregationHashChainList_new(KSI_LIST(KSI_AggregationHashChain) **l) { int s = c07b_status(); if (s == KSI_OK) { g_b.list_live++; *l = &g_b_newchainlist; } return s; }
+void KSI_AggregationHashChainList_free(KSI_LIST(KSI_AggregationHashChain) *l) { if (l != NULL) g_b.list_live--; }
+int KSI_TLV_clone(const KSI_TLV *tlv, KSI_TLV **clone) { KSI_TLV *t; if (nondet_bool()) return KSI_OUT_OF_MEMORY; t = malloc(sizeof(*t)); if (t == NULL) return KSI_OUT_OF_MEMORY; t->tag = tlv != NULL ? tlv->tag : 0; g_b.tlv_live++; *clone = t; return KSI_OK; }
+int KSI_TLV_appendNestedTlv(KSI_TLV *target, KSI_TLV *tlv) { return c07b_status(); }
+int KSI_VerificationResult_init(KSI_VerificationResult *info, KSI_CTX *ctx) { return c07b_status(); }
+void KSI_Signature_free(KSI_Signature *sig) { if (sig != NULL) { g_b.sig_free_calls++; if (sig->baseTlv != NULL) KSI_TLV_free(sig->baseTlv); free(sig); } }
+size_t KSI_snprintf(char *buf, size_t n, const char *format, ...) { return 0; }
+const char *KSI_Utf8String_cstr(const KSI_Utf8String *o) { return "msg"; }
+/* KSI_Signature_clone (signature.c:1015): arbitrary status; on OK a fresh object distinct from the source */
+int KSI_Signature_clone(const KSI_Signature *sig, KSI_Signature **clone) {
+	KSI_Signature *t;
+	g_b.clone_calls++; g_b.clone_from = sig; g_b.clone_res = c07b_status();
+	if (g_b.clone_res != KSI_OK) return g_b.clone_res;
+	t = malloc(sizeof(*t)); if (t == NULL) return g_b.clone_res = KSI_OUT_OF_MEMORY;
+	t->baseTlv = NULL; *clone = t; return KSI_OK;
+}
+
+static int c07b_chain_append(KSI_LIST(KSI_AggregationHashChain) *l, KSI_AggregationHashChain *o) { g_bl.append_calls++; return c07b_status(); }
+static void c07b_init_lists(void) {
+	memset(&g_b_chainlist, 0, sizeof(g_b_chainlist)); memset(&g_b_newchainlist, 0, sizeof(g_b_newchainlist));
+	memset(&g_b_tlvlist, 0, sizeof(g_b_tlvlist)); memset(&g_b_linklist, 0, sizeof(g_b_linklist));
+	g_b_chainlist.elementAt = c07b_chain_elementAt; g_b_chainlist.length = c07b_chain_length;
+	g_b_newchainlist.append = c07b_chain_append;
+	g_b_linklist.elementAt = c07b_link_elementAt;
+	g_b_tlvlist.length = c07b_tlv_length; g_b_tlvlist.elementAt = c07b_tlv_elementAt; g_b_tlvlist.removeElement = c07b_tlv_remove;
 }
 #endif
